@@ -147,7 +147,7 @@ class World:
         with open(path, "w") as f:
             # code objects compare by value (name, first line, bytecode, ...) but not by file name, and
             # codefind keys its caches on them: give every generated module its own line numbers
-            f.write(f"# world {_COUNTER[0]}\n" + "\n" * (_COUNTER[0] % 5000) + MODULE_SRC)
+            f.write(f"# world {_COUNTER[0]}\n" + "\n" * _COUNTER[0] + MODULE_SRC)
         importlib.invalidate_caches()
         self.as_main = as_main
         self.real_main = sys.modules.get("__main__")
@@ -340,16 +340,24 @@ def units(tier):
     # the generated module run as the main script: references of the form '//name'
     for pair in MAIN_PAIRS[tier]:
         out.append(("bfs", pair, False, True))
+    if tier == "thorough":
+        # shard every search by its first operation
+        sharded = []
+        for u in out:
+            for h in H.first_ops(System(tuple(u[1]), u[2], u[3]), 1):
+                sharded.append(u + (h,))
+        return sharded
     return out
 
 
 def work(unit, tier):
     part = new_partial()
-    _, pair, cache_mode, as_main = unit
+    _, pair, cache_mode, as_main = unit[:4]
+    prefix = unit[4] if len(unit) > 4 else ()
     placement = "+".join(pair) + ("@main" if as_main else "")
     system = System(tuple(pair), cache_mode, as_main)
     try:
-        res = H.explore(system, BOUNDS[tier]["depth"], audit_depth=BOUNDS[tier].get("merge_audit_depth", 0))
+        res = H.explore(system, BOUNDS[tier]["depth"], audit_depth=BOUNDS[tier].get("merge_audit_depth", 0), prefix=prefix)
     finally:
         cleanup()
         from codefind import code_registry
